@@ -90,3 +90,88 @@ Theorem c15_source_unsubscribe : forall st g a,
   let '(st', r', w') := step st (Unsubscribe g a) in
   subs st' = s' /\ avail st' = av' /\ r' = r /\ w' = w.
 Proof. exact src_unsubscribe. Qed.
+
+(* ---- the rest of the class from its source text ----------------------------------------------------------------------
+   gen/GenMulticastInitFn.v is emitted on every run from the Python AST of Multicast.__init__, _initialize and startup:
+   every `for` loop is a fold of one emitted step function, the NCP's answers are oracle arguments (cfg: the table-size read,
+   rd: the entry reads, o: per subscribe call the element set.pop() returns and the outcome of the table write; None = the
+   awaited command raised).  Vocabulary (proofs/MulticastInitSrc_proofs.v):
+   startup_groups co   := the groups of every endpoint other than 0, in order (co = items of coordinator.endpoints, an
+                          endpoint being the iteration order of its member_of)
+   sub_step o          := one Subscribe of the model with the oracle's choice and answer, unless an earlier one raised
+   after_init st ss rs := (st_of (step st (Init ss rs)), 0, [], RStatus 0)
+   model_startup       := fold_left (sub_step o) (startup_groups co) (after_init st ss rs)
+   choices_ok          := along that run, whenever the free set is consulted the oracle names one of its elements
+                          (what set.pop() returns), or the set is empty                                                  *)
+Require Import BV.gen.GenMulticastInitFn BV.proofs.MulticastInitSrc_proofs.
+
+Theorem c15_source_init : py_init = ([], []).
+Proof. exact src_init. Qed.
+
+(* one step of the scan: ANY non-zero endpoint byte means "in use" (the group is recorded with the index), endpoint 0
+   means free, an unreadable entry is neither *)
+Theorem c15_source_scan_entry : forall rd s a i status g ep,
+  rd i = Some (status, (g, ep)) ->
+  py_initialize_loop1 rd (s, a, Running) i =
+    if status_ok status then
+      if ep =? 0 then (s, set_add i a, Running) else (dict_set g i s, a, Running)
+    else (s, a, Running).
+Proof. exact src_scan_entry. Qed.
+Theorem c15_source_entry_in_use : forall rd s a i status g ep,
+  rd i = Some (status, (g, ep)) -> status_ok status = true -> ep <> 0 ->
+  py_initialize_loop1 rd (s, a, Running) i = (dict_set g i s, a, Running).
+Proof. exact src_scan_entry_in_use. Qed.
+Theorem c15_source_entry_free : forall rd s a i status g,
+  rd i = Some (status, (g, 0)) -> status_ok status = true ->
+  py_initialize_loop1 rd (s, a, Running) i = (s, set_add i a, Running).
+Proof. exact src_scan_entry_free. Qed.
+Theorem c15_source_entry_unreadable : forall rd s a i status e,
+  rd i = Some (status, e) -> status_ok status = false ->
+  py_initialize_loop1 rd (s, a, Running) i = (s, a, Running).
+Proof. exact src_scan_entry_unreadable. Qed.
+
+(* _initialize is the model's Init on every table and every sequence of read statuses: the size read (configuration id 6,
+   CONFIG_MULTICAST_TABLE_SIZE) answered with status ss and the table's length, the read of index j with the j-th status
+   and the j-th entry *)
+Theorem c15_source_initialize : forall st ss rs cfg rd,
+  cfg 6 = Some (ss, N.of_nat (length (ncp st))) ->
+  (forall j, (j < length (ncp st))%nat -> rd (N.of_nat j) = Some (nth j rs 0, nth j (ncp st) (0, 0))) ->
+  let '(s', av', r) := py_initialize (subs st) (avail st) cfg rd in
+  let '(st', r', w') := step st (Init ss rs) in
+  subs st' = s' /\ avail st' = av' /\ r' = r /\ w' = None /\ ncp st' = ncp st.
+Proof. exact src_initialize. Qed.
+
+(* startup(coordinator) is Init followed by one Subscribe per group of every endpoint other than 0, in order, stopping at
+   the first that raises: same dict, same set of free indices, same number of calls, same table writes in order, same
+   outcome *)
+Theorem c15_source_startup : forall st ss rs coordinator cfg rd o,
+  cfg 6 = Some (ss, N.of_nat (length (ncp st))) ->
+  (forall j, (j < length (ncp st))%nat -> rd (N.of_nat j) = Some (nth j rs 0, nth j (ncp st) (0, 0))) ->
+  choices_ok o (after_init st ss rs) (startup_groups coordinator) ->
+  let '(s', av', k, ws, r) := py_startup (subs st) (avail st) coordinator cfg rd o in
+  let '(st', k', ws', r') := model_startup st ss rs coordinator o in
+  subs st' = s' /\ seteq (avail st') av' /\ k' = k /\ ws' = ws /\ r' = r.
+Proof. exact src_startup. Qed.
+
+(* that composite is a run of the model's operations, so the theorems above apply to it *)
+Theorem c15_source_startup_is_run : forall st ss rs coordinator o,
+  exists ops, Forall is_call ops /\
+    fst (fst (fst (model_startup st ss rs coordinator o))) = run st (Init ss rs :: ops).
+Proof. exact startup_is_run. Qed.
+Theorem c15_source_startup_partition : forall t ss rs coordinator o,
+  distinct_groups t -> status_ok ss = true -> Forall (fun r => status_ok r = true) rs ->
+  let st := fst (fst (fst (model_startup {| subs := []; avail := []; ncp := t |} ss rs coordinator o))) in
+  wf st /\ full_partition st.
+Proof. exact startup_partition. Qed.
+
+(* non-vacuity: endpoint byte 242 is in use; endpoint 0 of the coordinator is skipped; the group listed by two endpoints is
+   written once; the third call times out and ends start-up before 0x44 is tried *)
+Example c15_source_startup_example :
+  let t := [(0x22, 242); (0, 0); (0x55, 0)] in
+  let cfg := fun id => if id =? 6 then Some (0, 3) else None in
+  let rd := fun i => Some (0, nth (N.to_nat i) t (0, 0)) in
+  let o := fun k => if k =? 2 then (1, TimeoutLost) else (2, Ans 0) in
+  startup_groups [(0, [0x33]); (1, [0x11]); (2, [0x11; 0x66; 0x44])] = [0x11; 0x11; 0x66; 0x44] /\
+  py_startup [(0x99, 7)] [5] [(0, [0x33]); (1, [0x11]); (2, [0x11; 0x66; 0x44])] cfg rd o
+    = ([(0x22, 0); (0x11, 2)], [1], 3, [(2, 0x11, 1); (1, 0x66, 1)], RRaised).
+Proof. vm_compute. split; reflexivity. Qed.
